@@ -2,8 +2,11 @@ import daemon
 
 
 def run(ctx):
-    return daemon.run(ctx, "C09", "c09", {"gc", "pod_vanished", "gc_while_request_inside", "rpc_during_gc", "api_failure", "sticky", "detach", "gc_cleanup_fault"}, [
+    return daemon.run(ctx, "C09", "c09", {"gc", "pod_vanished", "gc_while_request_inside", "rpc_during_gc", "api_failure", "sticky", "detach", "gc_cleanup_fault", "real_k8s_client"}, [
         "gcPods is called directly (the 5-minute timer is not waited for); GC runs in non-CRD mode (cleanRuntimeNode is out of scope here)",
+        "a quarter of the random scenarios answer GetPod / GetLocalPods / PodExist with the REAL pkg/k8s code (struct built by an overlay shim, "
+        "in-memory pod cache) against an httptest API server with two views: consistent reads from the store, resourceVersion=0 reads from a "
+        "watch cache that has not yet seen pods marked lag; an absence answered from the watch cache is not a confirmation by the API server",
         "transient cleanup fault: one GC pass runs with RLIMIT_NOFILE (soft) at 0, so every netlink call of the rule cleanup fails; the pass is "
         "logged as disturbed and is not counted towards 'within two passes'; healthy passes follow",
         "'a pod whose cleanup cannot proceed' has no legitimate instance in this harness: a record whose interface has no device must be tolerated "
